@@ -38,7 +38,7 @@ type specEnv struct {
 	r   *shape.Result
 	src string // the snapshot source parameter (strategies) – roles are field:<Role>(src:<src>)
 	// formula specifications: parameter names denote the input series, locals are plain variables
-	params map[string]bool
+	params map[string]string // name used in the specification (pinned source) -> the parameter's name now
 	locals map[string]bool
 }
 
@@ -53,8 +53,17 @@ func (e *specEnv) object(x ast.Expr) (*shape.Object, bool) {
 		if e.r == nil || e.r.Recv == nil {
 			return nil, false
 		}
-		o, ok := shape.FieldOf(e.r.Recv, v.Name).(*shape.Object)
-		return o, ok
+		name := strings.TrimPrefix(v.Name, "obj_")
+		if o, ok := shape.FieldOf(e.r.Recv, name).(*shape.Object); ok {
+			return o, true
+		}
+		// an unexported field may have been renamed: `wma2` also denotes the 2nd field whose type
+		// name contains "wma", `min` the only field whose type name contains "min"
+		if alt := e.fieldByType(name); alt != "" {
+			o, ok := shape.FieldOf(e.r.Recv, alt).(*shape.Object)
+			return o, ok
+		}
+		return nil, false
 	case *ast.SelectorExpr:
 		b, ok := e.object(v.X)
 		if !ok {
@@ -66,6 +75,14 @@ func (e *specEnv) object(x ast.Expr) (*shape.Object, bool) {
 	return nil, false
 }
 
+// fieldByType resolves a specification name against the receiver's struct by the type of the field.
+func (e *specEnv) fieldByType(name string) string {
+	if e.r == nil || e.r.Recv == nil {
+		return ""
+	}
+	return shape.FieldAlias(e.r.Recv.Type, name)
+}
+
 func (e *specEnv) eval(x ast.Expr) (sym.Expr, error) {
 	switch v := x.(type) {
 	case *ast.ParenExpr:
@@ -75,8 +92,8 @@ func (e *specEnv) eval(x ast.Expr) (sym.Expr, error) {
 			return n, nil
 		}
 	case *ast.Ident:
-		if e.params[v.Name] {
-			return sym.V("src:" + v.Name), nil
+		if actual, ok := e.params[v.Name]; ok {
+			return sym.V("src:" + actual), nil
 		}
 		if e.locals[v.Name] || (v.Name == "acc" && e.params != nil) {
 			return sym.V(v.Name), nil
@@ -492,4 +509,45 @@ func indTypeOf(fn string) string {
 		return s[:i]
 	}
 	return ""
+}
+
+// pinnedOf: the pinned-source names of the parameters of fn ("trend.Macd" for a Compute method,
+// "helper.Change" for a helper), paired with their names now; falls back to the current names.
+func pinnedOf(key string, sig *types.Signature) (orig []string, actual []string) {
+	for i := 0; i < sig.Params().Len(); i++ {
+		actual = append(actual, sig.Params().At(i).Name())
+	}
+	if pn, ok := pinnedParams[key]; ok && len(pn) == len(actual) {
+		return pn, actual
+	}
+	return actual, actual
+}
+
+// rootKey: "trend.Macd" for the Compute method of an indicator, "helper.Change" for a function.
+func rootKey(fi *load.FuncInfo) string {
+	rel := load.RelPkg(fi.Pkg.PkgPath)
+	if fi.Decl.Recv == nil {
+		return rel + "." + fi.Fn.Name()
+	}
+	return strings.TrimSuffix(strings.Replace(load.FuncName(fi.Fn), ".(*", ".", 1), ")."+fi.Fn.Name())
+}
+
+// origName: the pinned-source name of a parameter of the analysed root.
+func origName(fi *load.FuncInfo, actual string) string {
+	orig, act := pinnedOf(rootKey(fi), fi.Fn.Type().(*types.Signature))
+	for i, a := range act {
+		if a == actual {
+			return orig[i]
+		}
+	}
+	return actual
+}
+
+// specParams builds the specification's parameter map (pinned name -> current name) for a root.
+func specParams(fi *load.FuncInfo, streams []string) map[string]string {
+	m := map[string]string{}
+	for _, a := range streams {
+		m[origName(fi, a)] = a
+	}
+	return m
 }
